@@ -163,7 +163,7 @@ func TestC08Stress(t *testing.T) {
 				n := rapid.IntRange(1, 3).Draw(rt, "items")
 				var o []string
 				for x := 0; x < n; x++ {
-					o = append(o, rapid.SampledFrom([]string{"ok", "ok", "ok", "typed", "plain", "panic:string", "panic:error", "slow:1:true", "critical-extension", "ok-extension", "unrouted"}).Draw(rt, "outcome"))
+					o = append(o, rapid.SampledFrom([]string{"ok", "ok", "ok", "typed", "plain", "plain:typed-nil", "panic:string", "panic:error", "panic:slice", "panic:typed-nil-error", "panic:error-that-panics", "slow:1:true", "critical-extension", "ok-extension", "unrouted"}).Draw(rt, "outcome"))
 				}
 				scripts[i].Reqs = append(scripts[i].Reqs, o)
 			}
